@@ -391,6 +391,41 @@ def _rv(vals, ref):
     return vals[ref[1]] if ref[0] == "obj" else float(ref[1])
 
 
+def domain_ok(model, override=None):
+    """every operation of the program is inside its operator's domain (with margins) at these central values"""
+    try:
+        vals = interp(model, len(model) - 1, override)
+    except (ValueError, ZeroDivisionError, OverflowError, TypeError):
+        return False
+    for k, m in enumerate(model):
+        if m[0] == "un" and not in_domain_un(m[1], _rv(vals, m[2])):
+            return False
+        if m[0] == "bin":
+            b_int = m[3][0] == "const" and float(m[3][1]).is_integer()
+            if not in_domain_bin(m[1], _rv(vals, m[2]), _rv(vals, m[3]), b_int):
+                return False
+        if isinstance(vals[k], complex) or not (abs(vals[k]) < 2 ** 20):
+            return False
+    return True
+
+
+def pick_value_change(model, rng):
+    """(measurement id, new central value) that keeps the whole program in its domain, or None"""
+    ms = [i for i, m in enumerate(model) if m[0] == "meas"]
+    for _ in range(12):
+        i = rng.choice(ms)
+        new = model[i][1] + rng.choice([0.5, -0.5, 1.0, 0.25, -0.25, 2.0, -1.5])
+        if new != model[i][1] and domain_ok(model, {i: new}):
+            return i, new
+    return None
+
+
+def with_value(model, i, new):
+    out = list(model)
+    out[i] = ("meas", float(new), model[i][2])
+    return out
+
+
 def fd_derivative(model, k, m):
     """Ridders' extrapolated central differences of object k with respect to measurement m;
     returns (estimate, error estimate)"""
